@@ -454,6 +454,12 @@ impl Check for C13 {
     fn rule(&self) -> &'static str {
         "case = sequence of 3-10 builds drawn with repetition from a pool made of a base configuration, 2-4 near-identical variants (one token type changed, two patterns swapped, lookahead added / removed / polarity flipped / pattern changed, transition added / retargeted, mode renamed, one pattern changed), an unrelated configuration and failing configurations (syntax error or unsupported construct in first / last pattern or lookahead of any mode); mode names carry a per-execution nonce so that executions never meet each other's cache entries; oracle = every build() versus build_uncached() of the same modes: same Ok/Err, equal mode_name, equal token streams on probe inputs sampled from the languages of ALL pool members, and equivalent automata (identical dumps with class predicates compared on a probe set of ~600 characters, or - when dumps differ, and always for the last build of every fourth case - exact language equivalence per mode and lookahead over the alphabet atoms); a quarter of the cases instead drive the simple builder add_patterns(..).build() with pattern lists that are prefixes / extensions of each other, one pattern changed, two swapped, empty, failing (a nonce pattern stands first), compared with the same patterns built without the cache; fixed sweep cases build 70 ... 1 100 (thorough: 9 000) distinct configurations, hit a few early ones, build two more and re-build all of them twice, each time compared with the uncached scanner; non-trivial = a variant is built after its sibling was cached, or a valid build follows a failing one"
     }
+    fn nondeterministic(&self) -> bool {
+        // "whatever was built before" includes the builds of the other cases of this process (the
+        // cache is process-wide): a scanner spoilt by what another case left behind need not be
+        // spoilt again when the case runs alone
+        true
+    }
     fn cases(&self, thorough: bool) -> usize {
         if thorough {
             120_000
